@@ -484,6 +484,21 @@ def run_pipeline(prop, spec, tier, seed, findings, label):
                                 if (fd2["id"] if fd2 else None) == fid:
                                     confirmed = (dict(scn0, _with_predecessors=window[:-1]), e2, r)
                                     break
+                if confirmed is None and len(scs) > 1 and spec.get("confirm_batch", True):
+                    # schedule-dependent failures (free-running goroutines, shared pools): the same scenario need not
+                    # fail twice, but the clause must fail again when the whole batch is executed once more
+                    cb, _, _, _, ctrace, _ = exec_and_judge(scratch, spec, [dict(x) for x in scs], seed, "confirmb", race=race)
+                    cev = load_events(ctrace)
+                    for r in cb:
+                        if clause in clauses_for(prop, r):
+                            e2 = cev[r["line"] - 1]
+                            e2["_info"] = r.get("info", {})
+                            sc2 = by_scn.get(r["scn"], {})
+                            fd2 = match_finding(prop, clause, e2, sc2, findings)
+                            if (fd2["id"] if fd2 else None) == fid:
+                                pred = [dict(x) for x in scs if x.get("scn") != sc2.get("scn")]
+                                confirmed = (dict(sc2, _with_predecessors=pred, _any=True), e2, r)
+                                break
                 if confirmed is None:
                     unreproduced.append({"clause": clause, "scn": items[0][2].get("scn"), "event": items[0][1]})
                     continue
@@ -603,13 +618,14 @@ def replay(path):
     try:
         target = dict(r["scenario"])
         pred = target.pop("_with_predecessors", [])
+        anyscn = target.pop("_any", False)
         bad, _, _, _, trace_file, _ = exec_and_judge(scratch, spec, list(pred) + [target], r.get("seed", 1), "replay",
                                                      race=bool(spec.get("race")))
         evs = load_events(trace_file)
         hit = False
         for b in bad:
             cs = clauses_for(prop, b)
-            if r["clause"] in cs and b["scn"] == target.get("scn", b["scn"]):
+            if r["clause"] in cs and (anyscn or b["scn"] == target.get("scn", b["scn"])):
                 hit = True
                 log("failing event: %s" % json.dumps(evs[b["line"] - 1])[:600])
         if hit:
